@@ -25,3 +25,7 @@ fn witness_union(x: &Interval, y: &Interval) requires num_iv(*x), num_iv(*y) {
     let r = x.union(y);
     //@MUSTFAIL
 }
+fn witness_propagate(x: &Interval, y: &Interval, strict: bool) requires num_iv(*x), num_iv(*y) {
+    let r = satisfy_greater(x, y, strict);
+    //@MUSTFAIL
+}
